@@ -49,6 +49,8 @@ def lt_guard(g: T.Term) -> Optional[Tuple[T.Term, T.Term, bool]]:
 
 
 def run(prog: Program, rep: Report, tier: str) -> None:
+    rep.rule("R14.3", "range (necessary condition, interval analysis): when the duration is timedelta(days/hours/minutes=...) of integer arithmetic on the HH and MM parts of the two clock strings, "
+                      "its minute count stays within [0, 1440) for every HH in 0..23 and MM in 0..59; the bound is reported only when it is attained (every input part occurs once, so the interval is exact)", 0)
     rep.rule("R14.1", "calc_duration(s,e) == str(ite(E < S, E + 1 day, E) - S) (or str((E - S) % 1 day)) with S,E parsed from s,e by the SAME constant format '%H:%M'; strict comparison, increment exactly one day", 4)
     rep.trusted += [
         "datetime.strptime('%H:%M') yields 1900-01-01 HH:MM for valid input and raises ValueError otherwise; timedelta arithmetic; str(timedelta) == 'H:MM:SS' below one day (CPython docs)",
@@ -79,6 +81,7 @@ def run(prog: Program, rep: Report, tier: str) -> None:
     S = ("app", "datetime.datetime.strptime", s_p, c("%H:%M"))
     E = ("app", "datetime.datetime.strptime", e_p, c("%H:%M"))
     covered = {"lt": False, "ge": False, "mod": False}
+    foreign = 0
     for k, o in enumerate(rets):
         v = o.value
         if T.contains_top(v):
@@ -109,6 +112,14 @@ def run(prog: Program, rep: Report, tier: str) -> None:
         _collect_fmts(inner, s_p, e_p, fmts)
         for g in o.state.pc:
             _collect_fmts(g, s_p, e_p, fmts)
+        if not fmts:
+            # the clock strings are not parsed by strptime at all (split / slicing / int): a foreign form, not a
+            # deviating part of the recognised one
+            foreign += 1
+            minutes_range_rule(rep, k, inner, o.state.pc, s_p, e_p, where)
+            rep.undecided("R14.1", f"path {k}: parse", where,
+                          f"start/end are not parsed with datetime.strptime (the duration is {T.show(inner)[:200]}); whether this arithmetic equals (end - start) mod 24 h is outside the normal-form comparison")
+            continue
         if fmts != {"%H:%M"}:
             rep.bad("R14.1", f"path {k}: formats", where, f"start/end are parsed with formats {sorted(fmts)}; both must be the same '%H:%M' so they lie on one calendar day", key="R14.1|formats")
             continue
@@ -121,6 +132,13 @@ def run(prog: Program, rep: Report, tier: str) -> None:
                 guards.append((E, S, g[2]))
             elif g[1] == D and g[0] in ZERO:
                 guards.append((S, E, g[2]))
+        if inner == ("app", "datetime.timedelta", ("kw", "seconds", ("extmeth", D, "seconds"))):
+            # form E: timedelta(seconds=(E - S).seconds).  A timedelta is normalised to days + seconds + microseconds
+            # with 0 <= seconds < 86400; E - S has no microseconds ('%H:%M') and lies strictly within one day either
+            # way, so days is 0 or -1 and .seconds alone is (E - S) mod 1 day.
+            covered["mod"] = True
+            rep.ok("R14.1", f"path {k}: modular form through the normalised seconds field", where)
+            continue
         if inner == ("app", "mod", ("app", "sub", E, S)) + () or (inner[:2] == ("app", "mod") and inner[2] == ("app", "sub", E, S) and inner[3] in ONE_DAY):
             covered["mod"] = True
             rep.ok("R14.1", f"path {k}: modular form", where)
@@ -150,6 +168,9 @@ def run(prog: Program, rep: Report, tier: str) -> None:
             continue
         rep.bad("R14.1", f"path {k}: value", where, f"duration is computed as {T.show(inner)[:300]}; accepted forms: (E - S), (E + 1 day) - S, (E - S) + 1 day, (E - S) % 1 day", key="R14.1|value")
     complete = covered["mod"] or (covered["lt"] and covered["ge"])
+    if foreign and not complete:
+        rep.undecided("R14.1", "case split complete", where, f"{foreign} returning path(s) compute the duration in a form this rule does not compare")
+        return
     rep.check(complete, "R14.1", "case split complete", where, f"the cases end<start / end>=start are not both covered correctly: {covered}", key="R14.1|complete")
 
 
@@ -220,3 +241,118 @@ def _collect_fmts(v: Any, s_p: T.Term, e_p: T.Term, acc: set) -> None:
             acc.add(v[3][1] if T.is_c(v[3]) else "?")
         for x in v:
             _collect_fmts(x, s_p, e_p, acc)
+
+
+# ---------------------------------------------------------------------------
+# R14.3: interval analysis of a duration built from the integer parts of the clock strings
+def _clock_leaf(t: Any, s_p: T.Term, e_p: T.Term) -> Optional[Tuple[str, str]]:
+    """('s'|'e', 'h'|'m') when t is the integer hour / minute part of one of the two clock strings."""
+    which = {s_p: "s", e_p: "e"}
+
+    def param_of_split(sl: Any) -> Optional[str]:
+        if isinstance(sl, tuple) and sl[:1] == ("splitlist",) and len(sl) >= 3 and sl[2] in (c(":"), ":"):
+            src = sl[1]
+            if isinstance(src, tuple) and src[:1] == ("seq",) and len(src[2]) == 1 and src[2][0][:1] == ("whole",):
+                src = src[2][0][1]
+            return which.get(src)
+        return None
+
+    if isinstance(t, tuple) and t[:1] == ("item",) and len(t) == 3 and T.is_c(t[2]) and t[2][1] in (0, 1):
+        m = t[1]
+        if isinstance(m, tuple) and m[:1] == ("map",) and m[1] == ("app", "int", ("sym", "$e", ("elemof", m[2]))) or (isinstance(m, tuple) and m[:1] == ("map",) and isinstance(m[1], tuple) and m[1][:2] == ("app", "int") and len(m[1]) == 3 and m[1][2][:2] == ("sym", "$e")):
+            w = param_of_split(m[2])
+            if w:
+                return (w, "hm"[t[2][1]])
+    if isinstance(t, tuple) and t[:2] == ("app", "int") and len(t) == 3:
+        x = t[2]
+        if isinstance(x, tuple) and x[:1] == ("seq",) and len(x[2]) == 1 and x[2][0][:1] == ("txt",) and isinstance(x[2][0][1], tuple) and x[2][0][1][:1] == ("part",):
+            pt = x[2][0][1]
+            w = param_of_split(pt[1])
+            if w and pt[2] in (0, 1) and pt[3] == 2:
+                return (w, "hm"[pt[2]])
+    return None
+
+
+def _minute_interval(t: Any, s_p: T.Term, e_p: T.Term, leaves: List[Tuple[str, str]]) -> Optional[Tuple[int, int]]:
+    """[lo, hi] of an integer term over HH in 0..23, MM in 0..59; both ends are attained when no leaf repeats."""
+    if T.is_c(t) and isinstance(t[1], int) and not isinstance(t[1], bool):
+        return (t[1], t[1])
+    lf = _clock_leaf(t, s_p, e_p)
+    if lf is not None:
+        leaves.append(lf)
+        return (0, 23) if lf[1] == "h" else (0, 59)
+    if isinstance(t, tuple) and t[:1] == ("lin",):
+        lo = hi = t[1].const
+        if not isinstance(lo, int):
+            return None
+        for x, k in t[1].coef.items():
+            r = _minute_interval(x, s_p, e_p, leaves)
+            if r is None or not isinstance(k, int):
+                return None
+            lo += k * (r[0] if k >= 0 else r[1])
+            hi += k * (r[1] if k >= 0 else r[0])
+        return (lo, hi)
+    if isinstance(t, tuple) and t[:2] in (("app", "mod"), ("app", "floordiv")) and len(t) == 4 and T.is_c(t[3]) and isinstance(t[3][1], int) and t[3][1] > 0:
+        r = _minute_interval(t[2], s_p, e_p, leaves)
+        if r is None:
+            return None
+        k = t[3][1]
+        if t[1] == "floordiv":
+            return (r[0] // k, r[1] // k)
+        if r[1] - r[0] + 1 >= k:
+            return (0, k - 1)
+        vals = [x % k for x in range(r[0], r[1] + 1)]
+        return (min(vals), max(vals))
+    return None
+
+
+def minutes_range_rule(rep: Report, k: int, inner: Any, pc: List[Any], s_p: T.Term, e_p: T.Term, where: str) -> None:
+    if not (isinstance(inner, tuple) and inner[:2] == ("app", "datetime.timedelta") and all(isinstance(a, tuple) and a[:1] == ("kw",) and a[1] in ("days", "hours", "minutes") for a in inner[2:])):
+        return
+    total = T.Lin({}, 0)
+    for a in inner[2:]:
+        total = total + T.Lin.of(a[2]).scale({"days": 1440, "hours": 60, "minutes": 1}[a[1]])
+    # a path guard on a linear sub-combination G of the total (total = rest + a*G, G's parts not in rest) narrows G
+    narrowed: Optional[Tuple[Any, int, Tuple[int, int]]] = None
+    for g in pc:
+        if not (isinstance(g, tuple) and g[:1] == ("cmp",) and g[1] in ("<", "<=", ">", ">=") and T.is_c(g[3]) and isinstance(g[3][1], int)):
+            continue
+        G = T.Lin.of(g[2])
+        if not G.coef or G.const != 0 or not all(x in total.coef for x in G.coef) or not any(abs(q) == 1 for q in G.coef.values()):
+            continue
+        x0 = next(iter(G.coef))
+        if total.coef[x0] % G.coef[x0]:
+            continue
+        a = total.coef[x0] // G.coef[x0]
+        if any(total.coef[x] != a * q for x, q in G.coef.items()):
+            continue
+        lv: List[Tuple[str, str]] = []
+        r = _minute_interval(G.term(), s_p, e_p, lv)
+        if r is None or len(set(lv)) != len(lv):
+            continue
+        lo, hi = r
+        n = g[3][1]
+        lo, hi = {"<": (lo, min(hi, n - 1)), "<=": (lo, min(hi, n)), ">": (max(lo, n + 1), hi), ">=": (max(lo, n), hi)}[g[1]]
+        if lo > hi:
+            return      # infeasible path
+        narrowed = (G, a, (lo, hi))
+        break
+    leaves: List[Tuple[str, str]] = []
+    rest = total
+    lo = hi = 0
+    if narrowed is not None:
+        G, a, (glo, ghi) = narrowed
+        rest = total - G.scale(a)
+        lo, hi = (a * glo, a * ghi) if a >= 0 else (a * ghi, a * glo)
+        _minute_interval(G.term(), s_p, e_p, leaves)
+    r = _minute_interval(rest.term(), s_p, e_p, leaves)
+    if r is None:
+        return
+    lo, hi = lo + r[0], hi + r[1]
+    exact = len(set(leaves)) == len(leaves)
+    if 0 <= lo and hi <= 1439:
+        rep.ok("R14.3", f"path {k}: minute count within a day", where, f"minute count in [{lo},{hi}]")
+    elif exact:
+        rep.bad("R14.3", f"path {k}: minute count within a day", where,
+                f"the duration is timedelta of {T.show(total.term())[:220]} minutes, which ranges over [{lo},{hi}] for HH in 0..23 and MM in 0..59 on this path "
+                f"(every part occurs once, so both ends are reached): a duration outside [0, 24 h) is reported for some pair of times", key="R14.3|range")
